@@ -21,8 +21,10 @@ from .common import run_cases, model_output, coq_nat, coq_q, coq_list, Q, REPO
 
 GEN_DEPS = ["Classes.v"]     # the composition theorems are about the regenerated class plans
 TRUSTED = [
-    "Model/Method.v models only the recording of evaluations of LEAF functions at not-yet-evaluated points "
-    "(reuse of evaluations and composite functions are property C07's model)",
+    "Model/Method.v models only the recording of evaluations and proximal steps of LEAF functions at not-yet-"
+    "evaluated points (reuse of evaluations and composite functions are property C07's model)",
+    "Spec/World.v specifies the proximal operator of a world's function (prox_genuine); that the proximal point of a "
+    "convex function meets it is C08's optimality theorem (Proofs/C09Prox.v is_prox_spec)",
     "Spec/World.v: what running a method in a world means (hand-written specification)",
     "the link between an example's Python code and the method named in its docstring is informal",
     "harness/concrete.py (numerical members and exact steps) is used only to search for counterexamples",
@@ -41,6 +43,10 @@ CLASSES_FOR_RECORDING = ["SmoothConvexFunction", "ConvexFunction", "SmoothStrong
 
 # ------------------------------------------------------------------ stream 1: oracle recording
 def gen_program(rng):
+    """random program of free points, stationary points, oracle calls and proximal steps; one case in five is an
+    interleaved proximal-gradient-like run on two functions (see gen_splitting)"""
+    if rng.random() < 0.2:
+        return gen_splitting(rng)
     nf = rng.randint(1, 3)
     n = rng.randint(1, 9)
     ops = []
@@ -67,9 +73,50 @@ def gen_program(rng):
                 break
         else:
             continue
-        ops.append(("eval", f, list(zip(keys, coefs))))
+        if rng.random() < 0.35:
+            # x, gx, fx = proximal_step(p, f, gamma): the recorded point p - gamma * gx counts as evaluated on f
+            gamma = rng.choice([0.5, 1, 1.0, 2, 0.25, 4.0, 1.5, 0.125, 0, -1])
+            seen[f].discard(key)
+            seen[f].add(tuple(sorted(list(zip(keys, coefs)) + ([(npnt, -gamma)] if gamma != 0 else []))))
+            ops.append(("prox", f, list(zip(keys, coefs)), gamma))
+        else:
+            ops.append(("eval", f, list(zip(keys, coefs))))
         npnt += 1
     return nf, ops
+
+
+def gen_splitting(rng):
+    """proximal gradient / Douglas-Rachford-like runs on two functions: oracle calls and proximal steps
+    interleaved, every new iterate a combination of everything before (x - gamma * g, then its proximal point)"""
+    ops = [("fresh",)]
+    npnt = 1
+    x = [(0, 1)]
+    kind = rng.choice(["proximal_gradient", "prox_prox", "prox_then_gradient"])
+    for _ in range(rng.randint(1, 3)):
+        gamma = rng.choice([0.5, 1, 0.25, 2.0])
+        if kind == "proximal_gradient":
+            ops.append(("eval", 0, list(x)))              # g = f0.gradient(x)
+            y = x + [(npnt, -gamma)]
+            npnt += 1
+            ops.append(("prox", 1, list(y), gamma))       # x+ = prox_{gamma f1}(x - gamma g)
+            x = y + [(npnt, -gamma)]
+            npnt += 1
+        elif kind == "prox_prox":
+            ops.append(("prox", 0, list(x), gamma))       # y = prox_{gamma f0}(x)
+            y = x + [(npnt, -gamma)]
+            npnt += 1
+            g2 = rng.choice([0.5, 1, 4.0])
+            ops.append(("prox", 1, list(y), g2))          # x+ = prox_{g2 f1}(y)
+            x = y + [(npnt, -g2)]
+            npnt += 1
+        else:
+            ops.append(("prox", 1, list(x), gamma))
+            y = x + [(npnt, -gamma)]
+            npnt += 1
+            ops.append(("eval", 0, list(y)))
+            x = y + [(npnt, -gamma)]
+            npnt += 1
+    return 2, ops
 
 
 def impl_program(nf, ops, rng_classes):
@@ -90,14 +137,18 @@ def impl_program(nf, ops, rng_classes):
         elif op[0] == "stat":
             funcs[op[1]].stationary_point()
         else:
-            _, f, comb = op
+            f, comb = op[1], op[2]
             p = None
             for k, c in comb:
                 term = leaf(k) if c == 1 else c * leaf(k)
                 p = term if p is None else p + term
             if len(comb) == 1 and comb[0][1] == 1:
                 p = leaf(comb[0][0])
-            funcs[f].oracle(p)
+            if op[0] == "prox":
+                from PEPit.primitive_steps import proximal_step
+                proximal_step(p, funcs[f], op[3])
+            else:
+                funcs[f].oracle(p)
     pid = T.IdMap()
     for p in Point.list_of_leaf_points:
         pid.add(p, p.counter)
@@ -108,7 +159,10 @@ def impl_program(nf, ops, rng_classes):
     for f in funcs:
         out.append([[T.dump_pdict(x.decomposition_dict, pid), T.dump_pdict(g.decomposition_dict, pid),
                      T.dump_edict(fx.decomposition_dict, pid, xid)] for x, g, fx in f.list_of_points])
-    return [Point.counter, Expression.counter, 1, out]
+    # third entry: the model's well-formedness check of the program (evaluated points only mention existing leaves,
+    # which holds by construction; proximal steps have a positive step size)
+    wf = 0 if any(op[0] == "prox" and not op[3] > 0 for op in ops) else 1
+    return [Point.counter, Expression.counter, wf, out]
 
 
 def model_point(comb):
@@ -123,6 +177,8 @@ def coq_program(nf, ops):
             items.append("MFresh")
         elif op[0] == "stat":
             items.append("MStat %s" % coq_nat(op[1]))
+        elif op[0] == "prox":
+            items.append("MProx %s %s %s" % (coq_nat(op[1]), model_point(op[2]), coq_q(op[3])))
         else:
             items.append("MEval %s %s" % (coq_nat(op[1]), model_point(op[2])))
     return "(%s, %s)" % (coq_nat(nf), coq_list(items))
@@ -132,7 +188,8 @@ def stream_recording(tier, seed):
     rng = random.Random(seed * 104729 + 9)
     n = 400 if tier == "quick" else 4000
     cases, progs = [], []
-    hist = {"fresh": 0, "eval": 0, "stat": 0}
+    hist = {"fresh": 0, "eval": 0, "stat": 0, "prox": 0}
+    n_interleaved = 0
     distinct = set()
     for i in range(n):
         nf, ops = gen_program(rng)
@@ -142,17 +199,22 @@ def stream_recording(tier, seed):
         progs.append((nf, ops))
         for op in ops:
             hist[op[0]] += 1
-        if sum(1 for op in ops if op[0] == "eval") >= 2:
+        if sum(1 for op in ops if op[0] in ("eval", "prox")) >= 2:
             distinct.add(repr((nf, ops)))
+        if any(op[0] == "prox" for op in ops) and any(op[0] == "eval" for op in ops):
+            n_interleaved += 1
     bad = run_cases("c09rec", IMPORTS, RUN, cases, input_type=INPUT_TYPE)
     mism = [dict(program=progs[i], implementation=cases[i][1], model=model_output(IMPORTS, RUN, cases[i][0]))
             for i in bad[:3]]
     return dict(name="oracle-recording", evaluations=len(cases), distinct_nontrivial=len(distinct),
-                rule="seeded random programs of free points and evaluations of 1-3 leaf functions (6 classes) at "
-                     "dyadic combinations of earlier leaves; non-trivial = at least 2 evaluations; distinct by syntax",
+                rule="seeded random programs of free points, stationary points, oracle calls and proximal steps (the "
+                     "real PEPit.primitive_steps.proximal_step, dyadic step sizes incl. 0 and a negative one) on 1-3 "
+                     "leaf functions (6 classes) at dyadic combinations of earlier leaves; one program in five is a "
+                     "proximal-gradient / prox-prox run on two functions with oracle calls and proximal steps "
+                     "interleaved; non-trivial = at least 2 evaluations / proximal steps; distinct by syntax",
                 n_mismatch=len(bad), mismatches=mism, problems=[],
                 samples=[dict(program=progs[i], recorded=cases[i][1]) for i in range(min(2, len(progs)))],
-                distribution=dict(ops=hist))
+                distribution=dict(ops=hist, programs_with_prox_and_oracle=n_interleaved))
 
 
 # ------------------------------------------------------------------ stream 2: examples in a concrete world
@@ -306,7 +368,7 @@ def stream_examples(tier, seed, only=None):
     n_worlds = 10 if tier == "quick" else 60
     ok, skipped, problems, recs = 0, [], [], []
     t0 = time.time()
-    budget = 110 if tier == "quick" else 1500
+    budget = 80 if tier == "quick" else 1500
     for path in files:
         if time.time() - t0 > budget:
             skipped.append(dict(example=os.path.basename(path), why="time budget of the tier"))
